@@ -176,8 +176,11 @@ Qed.
 
 (** outcome of an allocating operation: done (refines [l']), or refused and nothing changed *)
 Definition alloc_outcome (d : deque) (a : alloc_st) (l' : list N) (st : stat) (d' : deque) (a' : alloc_st) : Prop :=
-  (st = CC_OK /\ dq_wf d' /\ repr d' l' /\ owns d' a' /\ same_ids d d') \/
+  (st = CC_OK /\ dq_wf d' /\ repr d' l' /\ owns d' a' /\ same_ids d d' /\ led_step d a d' a') \/
   (st = CC_ERR_ALLOC /\ d' = d /\ alloc_failed d a a').
+
+Lemma led_step_frame d a d1 a1 d' : led_step d a d1 a1 -> frame d1 d' -> led_step d a d' a1.
+Proof. intros H (_ & _ & Hb & _). unfold led_step in *. rewrite Hb. exact H. Qed.
 
 Lemma add_first_refines d l x a : dq_wf d -> repr d l -> owns d a ->
   exists st d' a', dq_add_first d x a = Ok (st, d', a') /\ alloc_outcome d a (x :: l) st d' a' /\
@@ -186,7 +189,7 @@ Proof.
   intros Hwf Hr Ho. unfold dq_add_first, g_deque_add_first_full.
   destruct (grow_if_spec (dq_cap d <=? dq_size d) d l a Hwf Hr Ho) as (ok & d1 & a1 & Hg & H);
     [pose proof (wf_size d Hwf); lia | lia |].
-  rewrite Hg. cbn [bind]. destruct H as [(-> & Hwf1 & Hr1 & Ho1 & Hid & Hs1 & Hroom & Hnf & _)|(-> & -> & Hfail)].
+  rewrite Hg. cbn [bind]. destruct H as [(-> & Hwf1 & Hr1 & Ho1 & Hid & Hs1 & Hroom & Hnf & _ & Hled)|(-> & -> & Hfail)].
   - cbn [negb]. destruct (add_first_nogrow d1 l x Hwf1 Hr1 Hroom) as (b & Hw & Hwf' & Hr').
     rewrite Hw. cbn [bind]. do 3 eexists. split; [reflexivity|]. split.
     + left. splits; auto.
@@ -223,7 +226,7 @@ Proof.
   intros Hwf Hr Ho. unfold dq_add_last, g_deque_add_last_full.
   destruct (grow_if_spec (dq_cap d =? dq_size d) d l a Hwf Hr Ho) as (ok & d1 & a1 & Hg & H);
     [pose proof (wf_size d Hwf); lia | pose proof (wf_size d Hwf); lia |].
-  rewrite Hg. cbn [bind]. destruct H as [(-> & Hwf1 & Hr1 & Ho1 & Hid & Hs1 & Hroom & Hnf & _)|(-> & -> & Hfail)].
+  rewrite Hg. cbn [bind]. destruct H as [(-> & Hwf1 & Hr1 & Ho1 & Hid & Hs1 & Hroom & Hnf & _ & Hled)|(-> & -> & Hfail)].
   - cbn [negb]. destruct (add_last_nogrow d1 l x Hwf1 Hr1 Hroom) as (b & Hw & Hwf' & Hr').
     rewrite Hw. cbn [bind]. do 3 eexists. split; [reflexivity|]. split.
     + left. splits; auto.
@@ -393,7 +396,7 @@ Proof.
   destruct (grow_if_spec (g_deque_add_at_full (dq_size d) (dq_cap d)) d l a Hwf0 Hrep0 Ho0) as (ok & d1 & a1 & Hg & H);
     [unfold g_deque_add_at_full; pose proof (wf_size d Hwf0); lia | unfold g_deque_add_at_full; pose proof (wf_size d Hwf0); lia |].
   rewrite Hg. cbn [bind].
-  destruct H as [(-> & Hwf & Hrep & Ho & Hid & Hs1 & Hroom & Hnf & Hfu)|(-> & -> & Hfail)];
+  destruct H as [(-> & Hwf & Hrep & Ho & Hid & Hs1 & Hroom & Hnf & Hfu & Hled)|(-> & -> & Hfail)];
     [|cbn [negb]; do 3 eexists; split; [reflexivity|right; auto]].
   cbn [negb].
   (* the classifier was evaluated on the layout the shifting code sees *)
@@ -423,8 +426,8 @@ Proof.
     assert (i = 0) by lia. subst i.
     destruct (add_first_refines d1 l x a1 Hwf Hrep Ho) as (st & d' & a' & Ha & Hout & Hng).
     rewrite Ha. destruct (Hng Hroom) as (-> & -> & Hfr). do 3 eexists. split; [reflexivity|].
-    destruct Hout as [(_ & Hw' & Hr' & Ho' & Hid')|(Hst & _)]; [|discriminate]. left. rewrite ins_0.
-    unfold same_ids in *. splits; auto; intuition congruence. }
+    destruct Hout as [(_ & Hw' & Hr' & Ho' & Hid' & _)|(Hst & _)]; [|discriminate]. left. rewrite ins_0.
+    unfold same_ids in *. splits; auto; try (intuition congruence). eapply led_step_frame; eassumption. }
   destruct (i =? dq_cap d1 - 1) eqn:Eic; [exfalso; lia|].
   assert (Hs2 : 2 <= dq_size d1) by lia.
   rewrite half_pred in * by (unfold W; lia).
